@@ -249,6 +249,7 @@ def check_rendering(ctx, par, items, tags, rng, deep):
             ctx.violation("constant-typecheck-differs-from-closure", dict(wit, wrong=badc))
     except BaseException as e:
         ctx.violation("domain-with-constant-rejected", dict(wit, observed=lib.exc_name(e)))
+    constants_only_universe(ctx, rng, par, tn, items, wit)
     # (d) quantifier ranges: forall effect and forall precondition
     try:
         pr = lib.parse_problem_text(sx.plain(problem_ast(objects, [["tok"]])), dom)
@@ -292,6 +293,33 @@ def check_rendering(ctx, par, items, tags, rng, deep):
                 ctx.violation("forall-precondition-range-differs-from-subtype-closure",
                               dict(wit, quantified_type=t, marked=sorted(marked), expected=want, observed=got))
                 break
+
+
+def constants_only_universe(ctx, rng, par, tn, items, wit):
+    """a problem without objects: the universe is the domain's constants.  forall conditions and effects range over
+    the constant exactly when its type is a subtype of the quantified type (an empty range is a vacuous truth)"""
+    ctype = rng.choice(list(par))
+    try:
+        domc = lib.parse_domain_text(sx.plain(build_domain(par, items, const_type=ctype)))
+    except BaseException:
+        return
+    for t in rng.sample(tn, min(3, len(tn))):
+        in_range = closure(par, ctype, t)
+        for marked in (False, True):
+            init = [["tok"]] + ([["marked", "kc"]] if marked else [])
+            want = True if not in_range else marked
+            try:
+                prp = lib.parse_problem_text(sx.plain(problem_ast({}, init)), domc)
+                got = lib.make_operator(domc, f"chk-{t}", [], prp.objects).is_applicable(lib.init_state(prp))
+            except BaseException as e:
+                got = lib.exc_name(e)
+            ctx.count("compared")
+            ctx.count("compared:forall-pre")
+            ctx.count("compared:constants-only-universe")
+            if got != want:
+                ctx.violation("forall-precondition-range-differs-from-subtype-closure[universe-of-constants-only]",
+                              dict(wit, quantified_type=t, constant_type=ctype, constant_marked=marked, expected=want, observed=got))
+                return
 
 
 def random_forest(rng):
